@@ -176,19 +176,30 @@ ASSUME \A i \in Charts :
 (* n is only determined up to an orthogonal change of the hyperplane, so    *)
 (* the spec states what IS determined: it is orthogonal and the chart       *)
 (* coordinate of the image of v is n.v / |n| up to sign, i.e.               *)
-(* cos^2 of the angle between v and n is preserved.  Test vectors on the    *)
-(* hyperplane are built as n_j e_i - n_i e_j.                               *)
+(* cos^2 of the angle between v and n is preserved, whatever non-zero       *)
+(* multiple of n is passed.  Test vectors on the hyperplane are built as    *)
+(* n_j e_i - n_i e_j.                                                       *)
 (***************************************************************************)
 IntPart(v) == [j \in 1..Len(v) |-> v[j][1]]
-Normals == {nv \in {[j \in 1..D |-> ((k * j + j * j) % 5) - 2] : k \in 1..4} : \E j \in 1..D : nv[j] # 0}
 UnitVec(i) == [c \in 1..D |-> IF c = i THEN 1 ELSE 0]
+\* generic normals, and the axis-aligned ones of both signs with positive and negative multiples
+\* (the hyperplane {x_0 = 0} itself is the one a construction by reflection degenerates on)
+Normals == {nv \in {[j \in 1..D |-> ((k * j + j * j) % 5) - 2] : k \in 1..4} : \E j \in 1..D : nv[j] # 0}
+           \cup {VScale(sc, UnitVec(i)) : i \in 1..D, sc \in {1, 0 - 1, 3, 0 - 2}}
+\* the transformation depends on the normal only through the hyperplane: rational rescalings <<p, q>> of n
+NormalScales == {<<1, 1>>, <<7, 2>>, <<0 - 1, 3>>}
 OnPlane(nv) == {[c \in 1..D |-> IF c = ij[1] THEN nv[ij[2]] ELSE IF c = ij[2] THEN 0 - nv[ij[1]] ELSE 0] :
                      ij \in {p \in (1..D) \X (1..D) : p[1] # p[2]}} \ {[c \in 1..D |-> 0]}
 OffPlane(nv) == {v \in {UnitVec(i) : i \in 1..D} \cup {nv} \cup {IntPart(FromAffine(a, i)) : a \in AffPts, i \in Charts} : Dot(v, nv) # 0}
 ASSUME ~Cplx => \A nv \in Normals : /\ \A v \in OnPlane(nv) : Dot(v, nv) = 0
                                       /\ Cardinality(OnPlane(nv)) >= N /\ OffPlane(nv) # {}
 HypTable == [nv \in Normals |-> [v \in OnPlane(nv) \cup OffPlane(nv) |-> <<Dot(v, nv) * Dot(v, nv), Dot(nv, nv) * Dot(v, v)>>]]
-ASSUME Cplx \/ PrintT("HYP " \o ToJson([nv \in Normals |-> [n |-> nv, pts |-> {<<v, HypTable[nv][v]>> : v \in DOMAIN HypTable[nv]}]]))
+\* cos^2 does not change when the normal is rescaled
+ASSUME ~Cplx => \A nv \in Normals, sc \in NormalScales : \A v \in DOMAIN HypTable[nv] :
+         LET m == VScale(sc[1], nv) IN
+         Dot(v, m) * Dot(v, m) * HypTable[nv][v][2] * sc[2] * sc[2] = HypTable[nv][v][1] * Dot(m, m) * Dot(v, v) * sc[2] * sc[2]
+ASSUME Cplx \/ PrintT("HYP " \o ToJson([nv \in Normals |-> [n |-> nv, scales |-> NormalScales,
+                                                             pts |-> {<<v, HypTable[nv][v]>> : v \in DOMAIN HypTable[nv]}]]))
 
 (***************************************************************************)
 (* Emission                                                                *)
